@@ -239,7 +239,7 @@ class timedelta:
 
 timezone.utc = timezone(timedelta(0))
 
-_PLACEHOLDER_RE = re.compile(r'^(9\d\d\d)-01-01[ T]00:00:00(\.000001)?(\+00:00)?$')
+_PLACEHOLDER_RE = re.compile(r'^(9\d\d\d)-01-01[ T]00:00:00(\.000001)?([+-]\d\d:?\d\d)?$')
 
 
 def registry():
@@ -253,12 +253,14 @@ _GLOBAL_REG = {}
 
 
 def placeholder(us, sep=' ', frac=True, suffix=False, ident=None):
-    """time string (ordinary str) standing for the naive-UTC instant `us` with the given syntax"""
+    """time string (ordinary str) standing for the wall-clock instant `us` with the given syntax; suffix: False (naive),
+    True ('+00:00') or an explicit UTC-offset text such as '+0900'"""
     reg = registry()
     if ident is None:
         ident = 9000 + len(reg)
     reg[ident] = us
-    return '%04d-01-01%s00:00:00%s%s' % (ident, sep, '.000001' if frac else '', '+00:00' if suffix else '')
+    sfx = suffix if isinstance(suffix, str) else ('+00:00' if suffix else '')
+    return '%04d-01-01%s00:00:00%s%s' % (ident, sep, '.000001' if frac else '', sfx)
 
 
 class datetime:
@@ -380,8 +382,11 @@ class datetime:
             if ident not in reg:
                 reg = _GLOBAL_REG            # placeholders created by a harness before the run started
             if ident in reg:
-                tz = timezone.utc if r.tzinfo is not None else None
-                return cls(_us=reg[ident], tzinfo=tz)
+                tz = None
+                if r.tzinfo is not None:
+                    off = r.utcoffset()
+                    tz = timezone.utc if off == _rdt.timedelta(0) else timezone(timedelta(_us=(off.days * 86400 + off.seconds) * US + off.microseconds))
+                return cls(_us=reg[ident], tzinfo=tz)      # the registered instant is the wall-clock reading of the string
         return cls._from_real(r)
 
     @classmethod
